@@ -24,14 +24,33 @@ pub fn fill(buf: &mut [u8]) {
     }
 }
 
-/// Run `f` on a fresh OS thread (fresh `RandomState` keys) and return its result.
-pub fn on_fresh_thread<T: Send, F: FnOnce() -> T + Send>(f: F) -> T {
+static SEED_LOCK: std::sync::Mutex<()> = std::sync::Mutex::new(());
+
+/// Run `f` on a fresh OS thread whose `RandomState` keys are derived from `seed`.
+/// The thread initialises its keys (first `RandomState::new()`) while the seed knob is held
+/// under a lock, so concurrent callers cannot observe each other's seed.
+pub fn on_fresh_thread_seeded<T: Send, F: FnOnce() -> T + Send>(seed: u64, f: F) -> T {
     std::thread::scope(|s| {
-        std::thread::Builder::new()
-            .stack_size(16 << 20)
-            .spawn_scoped(s, f)
-            .expect("spawn")
-            .join()
-            .unwrap_or_else(|e| std::panic::resume_unwind(e))
+        let (tx, rx) = std::sync::mpsc::channel::<()>();
+        let h = {
+            let _g = SEED_LOCK.lock().unwrap_or_else(|e| e.into_inner());
+            set_seed(seed);
+            let h = std::thread::Builder::new()
+                .stack_size(16 << 20)
+                .spawn_scoped(s, move || {
+                    let _ = std::collections::hash_map::RandomState::new();
+                    let _ = tx.send(());
+                    f()
+                })
+                .expect("spawn");
+            let _ = rx.recv();
+            h
+        };
+        h.join().unwrap_or_else(|e| std::panic::resume_unwind(e))
     })
+}
+
+/// Run `f` on a fresh OS thread (fresh `RandomState` keys from seed 0) and return its result.
+pub fn on_fresh_thread<T: Send, F: FnOnce() -> T + Send>(f: F) -> T {
+    on_fresh_thread_seeded(0, f)
 }
